@@ -306,7 +306,8 @@ def run_verus_variant(unit, features, tag, scratch):
 def run_verus(unit, scratch):
     spec = plan.VERUS_UNITS[unit]
     r = verus_unit.run_unit(spec['unit'], REPO, scratch.dir, features=spec.get('features'),
-                            rlimit=spec.get('rlimit', 30), tag=spec.get('tag'), multiple_errors=spec.get('multiple_errors', 4))
+                            rlimit=spec.get('rlimit', 30), tag=spec.get('tag'), multiple_errors=spec.get('multiple_errors', 4),
+                            always_split=spec.get('always_split', ()))
     return finish_verus(r)
 
 
